@@ -461,6 +461,7 @@ func checkC06(w *World, r *Report) {
 	// ---- R06.2 / R06.3
 	s.checkInheritance(r, choke)
 	checkPolicyQueriesPure(w, r)
+	checkPolicyAnswersFromValues(w, r)
 	checkNoNestedTopLevelRender(w, r, reach)
 	checkEveryFilterBecomesANode(w, r)
 	checkSandboxedIncludeSetsFlag(w, r)
@@ -1224,4 +1225,120 @@ func checkSandboxedIncludeSetsFlag(w *World, r *Report) {
 		}
 	})
 	r.floor("nested renders in IncludeNode.Render", n, 1)
+}
+
+// checkPolicyAnswersFromValues — R06.10: the package's own policy answers "allowed" only with the
+// boolean its list holds for the name.  In every query method of a SecurityPolicy implementation
+// of the package (and the helpers it returns the result of) the returned bool never derives from
+// the PRESENCE of a key (the comma-ok result of a lookup, a length) and is never the constant
+// true: a name entered with the value false — switched off explicitly — must stay forbidden.
+func checkPolicyAnswersFromValues(w *World, r *Report) {
+	iface, ok := w.named("SecurityPolicy").Underlying().(*types.Interface)
+	if !ok {
+		return
+	}
+	query := map[string]bool{}
+	for i := 0; i < iface.NumMethods(); i++ {
+		if sig, ok := iface.Method(i).Type().(*types.Signature); ok && sig.Results().Len() == 1 {
+			if b, ok := sig.Results().At(0).Type().Underlying().(*types.Basic); ok && b.Kind() == types.Bool {
+				query[iface.Method(i).Name()] = true
+			}
+		}
+	}
+	n := 0
+	for _, fn := range w.pkgFuncs() {
+		recv := fn.Signature.Recv()
+		if recv == nil || fn.Synthetic != "" || !query[fn.Name()] {
+			continue
+		}
+		rt := deref(recv.Type())
+		if _, isI := rt.Underlying().(*types.Interface); isI {
+			continue
+		}
+		if !types.Implements(rt, iface) && !types.Implements(types.NewPointer(rt), iface) {
+			continue
+		}
+		n++
+		var why string
+		var where ssa.Instruction
+		seenF := map[*ssa.Function]bool{}
+		var scanFn func(g *ssa.Function, d int)
+		var trace func(v ssa.Value, g *ssa.Function, seen map[ssa.Value]bool, d int)
+		trace = func(v ssa.Value, g *ssa.Function, seen map[ssa.Value]bool, d int) {
+			v = unspill(v)
+			if seen[v] || why != "" || d > 12 {
+				return
+			}
+			seen[v] = true
+			switch x := v.(type) {
+			case *ssa.Const:
+				if isConstBool(x, true) {
+					why = "the constant true"
+				}
+			case *ssa.Phi:
+				for _, e := range x.Edges {
+					trace(e, g, seen, d+1)
+				}
+			case *ssa.UnOp:
+				if x.Op == token.NOT {
+					trace(x.X, g, seen, d+1)
+				}
+			case *ssa.BinOp:
+				// len(list) > 0, name == "*" and the like: not the list's answer for this name
+				if _, isB := x.X.Type().Underlying().(*types.Basic); isB && x.Op != token.LAND && x.Op != token.LOR {
+					for _, o := range []ssa.Value{x.X, x.Y} {
+						if c, ok := o.(*ssa.Call); ok {
+							if b, ok := c.Call.Value.(*ssa.Builtin); ok && b.Name() == "len" {
+								why = "a length test"
+								where, _ = v.(ssa.Instruction)
+							}
+						}
+					}
+				}
+			case *ssa.Extract:
+				if lk, ok := x.Tuple.(*ssa.Lookup); ok && lk.CommaOk && x.Index == 1 {
+					why = "the presence of a key (comma-ok result of a lookup)"
+					where = lk
+					return
+				}
+				if c, ok := x.Tuple.(*ssa.Call); ok {
+					trace(c, g, seen, d+1)
+				}
+			case *ssa.Call:
+				if h := x.Call.StaticCallee(); h != nil && isTwigFn(h) {
+					scanFn(h, d+1)
+				}
+			}
+		}
+		scanFn = func(g *ssa.Function, d int) {
+			if g == nil || seenF[g] || len(g.Blocks) == 0 || d > 6 {
+				return
+			}
+			seenF[g] = true
+			instrsOf(g, func(in ssa.Instruction) {
+				if ret, ok := in.(*ssa.Return); ok && why == "" {
+					for _, res := range ret.Results {
+						if b, ok := res.Type().Underlying().(*types.Basic); ok && b.Kind() == types.Bool {
+							trace(res, g, map[ssa.Value]bool{}, d)
+							if why != "" && where == nil {
+								where = in
+							}
+						}
+					}
+				}
+			})
+		}
+		scanFn(fn, 0)
+		construct := "the answer is the value the list holds for the name"
+		if why == "" {
+			r.ok("R06.10", ssaName(fn), construct, w.posOf(fn.Pos()), "no returned value derives from key presence, a length or the constant true", true)
+		} else {
+			pos := w.posOf(fn.Pos())
+			if where != nil {
+				pos = w.posOf(where.Pos())
+			}
+			r.bad("R06.10", ssaName(fn), construct, pos, "the policy can answer \"allowed\" from "+why+": a name that is on the list with the value false — forbidden explicitly — is reported as allowed, and a sandboxed template may use it")
+		}
+	}
+	r.floor("bool query methods of the package's policy implementations", n, 2)
 }
